@@ -1392,6 +1392,14 @@ func (vc *VC) checkBackEdge(fr *Frame, li *loopInfo, eo edgeOut, from *ssa.Basic
 		vc.oblige(fmt.Sprintf("loop%d.preserve", li.ordinal), lab, eo.cond, mkImp(mkAnd(proved...), g), from.Instrs[len(from.Instrs)-1].Pos(), inv.Src)
 		proved = append(proved, vc.define("inv", SBool, g))
 	}
+	for i, be := range li.spec.BackEdge {
+		g := vc.evalBool(env, be.Expr)
+		lab := be.Label
+		if lab == "" {
+			lab = fmt.Sprint(i)
+		}
+		vc.oblige(fmt.Sprintf("loop%d.backedge", li.ordinal), lab, eo.cond, g, from.Instrs[len(from.Instrs)-1].Pos(), be.Src)
+	}
 	for _, lf := range li.frames {
 		cur := vc.heapGet(eo.st, lf.key).S
 		if cur == lf.head {
